@@ -1,9 +1,12 @@
 #!/usr/bin/env python3
-"""file_seed.py <verify-log> : file confirmed mutations from /tmp/mut/<id>/out/m<i> under /verif/seeded/<id>-m<i>/.
+"""file_seed.py <verify-log> [<src-root> [<offset>]] : file confirmed mutations from <src-root>/<id>/out/m<i>
+(default /tmp/mut) under /verif/seeded/<id>-m<i+offset>/.
 A mutation is filed only if my own scratch-worktree confirmation (verify_mut.sh log line) shows:
 demo ok on the unchanged tree, build ok, suite clean, demo FAIL with the change."""
 import sys, os, json, re, shutil, subprocess
 head = subprocess.check_output(["git","-C","/repo","rev-parse","--short","HEAD"]).decode().strip()
+ROOT = sys.argv[2] if len(sys.argv) > 2 else "/tmp/mut"
+OFF = int(sys.argv[3]) if len(sys.argv) > 3 else 0
 for line in open(sys.argv[1]):
     if '|' not in line: continue
     parts=[p.strip() for p in line.split('|')]
@@ -14,7 +17,7 @@ for line in open(sys.argv[1]):
     ok = base.startswith('ok') and build=='ok' and suite=='0' and 'FAIL' in mut
     if not ok:
         print("NOT CONFIRMED", sid, line.strip()); continue
-    src=f"/tmp/mut/{prop}/out/{m}"; dst=f"/verif/seeded/{sid}"
+    src=f"{ROOT}/{prop}/out/{m}"; sid=f"{prop}-m{int(m[1:])+OFF}"; dst=f"/verif/seeded/{sid}"
     os.makedirs(dst,exist_ok=True)
     shutil.copy(src+"/patch.diff",dst+"/patch.diff")
     shutil.copy(src+"/zz_demo_test.go",dst+"/zz_demo_test.go.txt")
